@@ -369,6 +369,42 @@ func (e *cmpEnv) stmt(s ast.Stmt) (ctrl, int) {
 			}
 		}
 		return ctrlNext, 0
+	case *ast.ForStmt:
+		// `for x := 0; x < len(so); x++ {..}` over the sort keys
+		init, okI := x.Init.(*ast.AssignStmt)
+		post, okP := x.Post.(*ast.IncDecStmt)
+		if !okI || !okP || len(init.Lhs) != 1 || len(init.Rhs) != 1 || post.Tok != token.INC || x.Cond == nil {
+			e.fail("for statement not understood")
+		}
+		kobj := e.info.ObjectOf(init.Lhs[0].(*ast.Ident))
+		start, ok := e.intOf(init.Rhs[0])
+		if !ok || kobj == nil {
+			e.fail("for statement not understood")
+		}
+		cond, okC := ast.Unparen(x.Cond).(*ast.BinaryExpr)
+		if !okC || cond.Op != token.LSS || e.info.ObjectOf(baseIdent(cond.X)) != kobj {
+			e.fail("loop condition %s not understood", exprStr(x.Cond))
+		}
+		bound := -1
+		if c, isCall := ast.Unparen(cond.Y).(*ast.CallExpr); isCall && calleeBuiltin(e.info, c) == "len" && len(c.Args) == 1 {
+			bound = e.nkeys // the sort order, or a slice parallel to it
+		} else if v, ok := e.intOf(cond.Y); ok {
+			bound = v
+		}
+		if bound < 0 {
+			e.fail("loop bound %s not understood", exprStr(cond.Y))
+		}
+		for k := start; k < bound && k < e.nkeys; k++ {
+			e.ints[kobj] = k
+			c, v := e.stmt(x.Body)
+			if c == ctrlReturn {
+				return c, v
+			}
+			if c == ctrlBreak {
+				break
+			}
+		}
+		return ctrlNext, 0
 	case *ast.SwitchStmt:
 		if x.Tag != nil {
 			e.fail("tagged switch not understood")
